@@ -5,6 +5,7 @@ import (
 	"errors"
 	"fmt"
 	"sync"
+	"sync/atomic"
 	"time"
 
 	"github.com/ipfs/go-graphsync"
@@ -925,11 +926,14 @@ type dtChannel struct {
 	channelID datatransfer.ChannelID
 	t         *Transport
 
-	lk                 sync.RWMutex
-	isOpen             bool
-	requestID          *graphsync.RequestID
-	completed          chan struct{}
-	requesterCancelled bool
+	lk        sync.RWMutex
+	isOpen    bool
+	requestID *graphsync.RequestID
+	completed chan struct{}
+	// requesterCancelled is set without taking lk: graphsync delivers the
+	// requestor-cancelled notification on the run loop of its response manager,
+	// and pause / resume wait for that same loop while they hold lk
+	requesterCancelled atomic.Bool
 	xferStarted        bool
 	pendingExtensions  []graphsync.ExtensionData
 
@@ -1060,8 +1064,8 @@ func (c *dtChannel) gsDataRequestRcvd(requestID graphsync.RequestID, hookActions
 
 	// If the requester had previously cancelled their request, send any
 	// message that was queued since the cancel
-	if c.requesterCancelled {
-		c.requesterCancelled = false
+	if c.requesterCancelled.Load() {
+		c.requesterCancelled.Store(false)
 
 		extensions := c.pendingExtensions
 		c.pendingExtensions = nil
@@ -1097,7 +1101,7 @@ func (c *dtChannel) pause(ctx context.Context) error {
 	}
 
 	// If the requester cancelled, bail out
-	if c.requesterCancelled {
+	if c.requesterCancelled.Load() {
 		log.Debugf("%s: requester has cancelled so not pausing response", c.channelID)
 		return nil
 	}
@@ -1127,7 +1131,7 @@ func (c *dtChannel) resume(ctx context.Context, msg datatransfer.Message) error 
 	}
 
 	// If the requester cancelled, bail out
-	if c.requesterCancelled {
+	if c.requesterCancelled.Load() {
 		// If there was an associated message, we still want to send it to the
 		// remote peer. We're not sending any message now, so instead queue up
 		// the message to be sent next time the peer makes a request to us.
@@ -1169,12 +1173,10 @@ func (c *dtChannel) close(ctx context.Context) error {
 	}
 }
 
-// Called when the responder gets a cancel message from the requester
+// Called when the responder gets a cancel message from the requester.
+// Note: must not take the lock (see requesterCancelled).
 func (c *dtChannel) onRequesterCancelled() {
-	c.lk.Lock()
-	defer c.lk.Unlock()
-
-	c.requesterCancelled = true
+	c.requesterCancelled.Store(true)
 }
 
 func (c *dtChannel) hasStore() bool {
@@ -1255,7 +1257,7 @@ func (c *dtChannel) cancel(ctx context.Context) chan error {
 	errch := make(chan error, 1)
 
 	// Check that the request has not already been cancelled
-	if c.requesterCancelled || c.requestID == nil {
+	if c.requesterCancelled.Load() || c.requestID == nil {
 		errch <- nil
 		return errch
 	}
